@@ -279,12 +279,33 @@ def synthetic_cases(draw):
     return dict(kind="synthetic", results=res, path=path)
 
 
+def large_synthetic():
+    """Enumerated: long vectors, many games, long names/messages (sizes around 80, 1000, 4096, 10^4)."""
+    for n in (79, 80, 81, 999, 1000, 1001, 4097, 10000):
+        vec = [((i * 7919) % 1000) / 7 for i in range(n)]
+        strat = [None if i % 3 == 0 else ["Left", "Right"][: 1 + i % 2] for i in range(n)]
+        e = dict(n_states=n, n_transitions=3 * n, n_iterations_reach=n, n_iterations_rew=n + 1,
+                 reachability_strategies=strat, final_strategies=[x if i % 5 else None for i, x in enumerate(strat)],
+                 total_time=1.5, msg="Game solved", rewards=vec, rew_min_reach=list(reversed(vec)),
+                 probabilities=[min(1.0, x / 100) for x in vec], prob_min_rew=[0.0] * n)
+        yield dict(kind="synthetic", results={f"big_{n}": e, f"big_{n}_no_prune": dict(e, msg="x" * n)},
+                   path=f"inputs/{'n' * min(n, 100)}.py")
+    many = {f"g{i}": dict(n_states=i, n_transitions=i, n_iterations_reach=0, n_iterations_rew=0,
+                          reachability_strategies=None, final_strategies=None, total_time=0.0, msg="Game not solved",
+                          rewards=None, rew_min_reach=0, probabilities=None, prob_min_rew=0) for i in range(130)}
+    yield dict(kind="synthetic", results=many, path="inputs/many.py")
+
+
 def phases(tier):
-    return [Phase("pipeline", strategy=pipeline_cases, examples=(350, 15000)),
+    return [Phase("large-reports", enum=large_synthetic, note="long vectors, many entries, long names and messages"),
+            Phase("pipeline", strategy=pipeline_cases, examples=(350, 15000)),
             Phase("synthetic-results", strategy=synthetic_cases, examples=(500, 20000))]
 
 
 def sample_view(case):
+    if case["kind"] == "synthetic" and len(str(case)) > 4000:
+        return dict(kind="synthetic", path=case["path"], entries=list(case["results"])[:4],
+                    vector_length=len(next(iter(case["results"].values())).get("rewards") or []))
     if case["kind"] == "pipeline":
         return dict(kind="pipeline", fname=case["fname"], names=case["names"], styles=case["styles"],
                     kinds=[g["kind"] for g in case["games"]], first_game=case["games"][0]["game"])
